@@ -145,8 +145,8 @@ theorem contained_joinSlash {cs : List Bytes} (hne : cs ≠ []) (h : GoodComps c
 
 /-! ### Tree-consistent views -/
 
-/-- The view is a tree of directories with regular files, symbolic links and
-    special files as leaves (no hard links), in which the lookup table and the
+/-- The view is a tree of directories with regular files, links and special
+    files as leaves, in which the lookup table and the
     children tables say the same thing. `skip` lists the keys
     that are registered but not yet connected to their directory (the state in
     the middle of `add`). -/
@@ -158,7 +158,7 @@ structure TreeOK (skip : List Bytes) (fs : FS) : Prop where
   named : ∀ k i, fs.get? k = some i → (fs.ino i).name = k ∧ i < fs.inodes.length
   kinds : ∀ k i, fs.get? k = some i →
     ((fs.ino i).kind = .dir ∧ ∃ cs, (fs.ino i).children = some cs) ∨
-    ((fs.ino i).kind ≠ .dir ∧ (fs.ino i).kind ≠ .link ∧ (fs.ino i).children = none ∧
+    ((fs.ino i).kind ≠ .dir ∧ (fs.ino i).children = none ∧
       ((fs.ino i).kind = .reg → ∃ d, (fs.ino i).data = some d))
   up : ∀ k i, fs.get? k = some i → k ≠ dotP → k ∉ skip →
     ∃ j cs, fs.get? (dirOf k) = some j ∧ dirOf k ∉ skip ∧ (fs.ino j).kind = .dir ∧
